@@ -651,6 +651,9 @@ func c06RunFuncs(u fw.Unit) fw.Result {
 	if sp.Shard == 0 {
 		c06NumberToText(a)
 	}
+	if sp.Shard == 1 {
+		c06CaseVariantPairs(a)
+	}
 	return a.result()
 }
 
@@ -703,4 +706,48 @@ func c06NumberToText(a *acc) {
 		}
 	}
 	a.sample(map[string]any{"number_to_text_queries": len(queries), "values": fmt.Sprint(vals)})
+}
+
+// c06CaseVariantPairs: two expressions that differ only in the letter case of a case-sensitive part (a text literal,
+// a column name) evaluated one after the other in one process: each yields what it yields when it is the first
+// expression a fresh process evaluates (the caches are process-wide and keyed by text).
+func c06CaseVariantPairs(a *acc) {
+	rows := []Row{{"s": "t1", "S": "T9", "a": 2, "A": 10, "b": 1}, {"s": "x", "S": "x", "a": 1, "A": 1, "b": 2}}
+	pairs := [][2]string{
+		{"concat(s, '-ok')", "concat(s, '-OK')"},
+		{"(a + 1) * 2", "(A + 1) * 2"},
+		{"upper(s)", "upper(S)"},
+		{"CASE WHEN s = 't1' THEN 'lo' ELSE 'Lo' END", "CASE WHEN s = 'T1' THEN 'lo' ELSE 'Lo' END"},
+		{"s = 'T1' OR S = 'T9'", "s = 't1' OR S = 't9'"},
+		{"coalesce(s, 'none')", "coalesce(S, 'NONE')"},
+		{"length(concat(s, 'a'))", "length(concat(S, 'a'))"},
+		{"a + b * 2", "A + b * 2"},
+	}
+	for _, ctx := range []string{"SELECT %s AS r FROM stream", "SELECT a FROM stream WHERE %s"} {
+		for _, pr := range pairs {
+			if strings.HasPrefix(ctx, "SELECT a") && !strings.Contains(pr[0], "=") {
+				continue
+			}
+			for _, order := range [][2]int{{0, 1}, {1, 0}} {
+				first, second := fmt.Sprintf(ctx, pr[order[0]]), fmt.Sprintf(ctx, pr[order[1]])
+				functions.VerifResetGlobals()
+				alone, e0, _, _ := syncEval(second, rows)
+				functions.VerifResetGlobals()
+				_, e1, _, _ := syncEval(first, rows)
+				after, e2, _, _ := syncEval(second, rows)
+				a.r.Evaluations += 3
+				a.r.States++
+				if e0 != "" || e1 != "" || e2 != "" {
+					a.r.Skipped++
+					continue
+				}
+				a.r.Nontrivial++
+				a.outcome(second + js(after))
+				if js(after) != js(alone) {
+					a.fail("C06|case-variant-pair|value-depends-on-earlier-expression", fmt.Sprintf("%s evaluated after %s yields %s; in a fresh process it yields %s", second, first, js(after), js(alone)), map[string]any{"first": first, "second": second, "rows": rows}, js(alone), js(after))
+				}
+			}
+		}
+	}
+	functions.VerifResetGlobals()
 }
